@@ -287,14 +287,16 @@ def cmd_selftest(a):
         runs = list(range(n))
         a1 = runner.run_batch(prop, 0, "quick", runs, jobs=16)
         a2 = runner.run_batch(prop, 0, "quick", runs, jobs=3)
-        p = _fresh(["digest", pid, "--tier", "quick", "--seed", "0", "--runs", ",".join(map(str, runs))], hashseed="99")
+        p = _fresh(["digest", pid, "--tier", "quick", "--seed", "0", "--runs", ",".join(str(r) for r in runs if r < 64 or r % 53 == 0)], hashseed="99")
         if p.returncode != 0:
             print(f"{pid}: digest helper failed: {p.stderr[-500:]}")
             rc = 2
             continue
         a3 = {int(k): v for k, v in json.loads(p.stdout.strip().splitlines()[-1]).items()}
-        bad = [r for r in runs if not (a1["run_digest"].get(r) == a2["run_digest"].get(r) == a3.get(r))]
-        print(f"{pid}: {n} runs x (16 workers, 3 workers, fresh interpreter PYTHONHASHSEED=99): {'identical' if not bad else 'MISMATCH ' + str(bad[:10])}")
+        # (batches keep the digests of runs < 64 and of every 53rd run)
+        kept = [r for r in runs if r in a1["run_digest"]]
+        bad = [r for r in kept if not (a1["run_digest"].get(r) == a2["run_digest"].get(r) == a3.get(r))]
+        print(f"{pid}: {len(kept)} of {n} runs x (16 workers, 3 workers, fresh interpreter PYTHONHASHSEED=99): {'identical' if not bad else 'MISMATCH ' + str(bad[:10])}")
         if bad or a1["errors"]:
             rc = 2
     # known findings / corpus files parse
